@@ -89,6 +89,71 @@ theorem gen_bkSearchEytzinger_eq_model (get : Nat → Option Nat) (x : UInt64) (
     simp [h, resToM, throw, throwThe, MonadExceptOf.throw]
   | err => rw [hs] at h; simp only [resToLoop] at h; simp [h, resToM]
 
+/-! ### the same for the deprecated (version 1) reader -/
+
+theorem bk1_loop_eq (get : Nat → Option Nat) (x : UInt64) (max : Nat) (hmax : max < 2^62) (ioErr : Err)
+    (getter : Int → M UInt64) (fuel0 : Nat)
+    (hget : ∀ i : Nat, i < max → getter (i : Int) = match get i with | none => .error ioErr | some k => .ok (UInt64.ofNat k))
+    (hr : ∀ i k, get i = some k → k < 2^64) :
+    ∀ (fuel n : Nat), max < n + fuel → 0 < fuel →
+      resToLoop x ioErr (BK.searchB get x.toNat max fuel n) (bk1SearchEytzinger.loop1 fuel0 getter (max : Int) x fuel (n : Int)) := by
+  intro fuel
+  induction fuel with
+  | zero => intro n h h0; omega
+  | succ f ih =>
+    intro n h _
+    rw [BK.searchB, bk1SearchEytzinger.loop1]
+    by_cases hn : n < max
+    · have hn' : (n : Int) < (max : Int) := by omega
+      simp only [hn, hn', if_true, decide_true, Bool.not_true, Bool.false_eq_true, if_false]
+      rw [hget n hn]
+      cases hg : get n with
+      | none => simp [resToLoop]
+      | some k =>
+        have hk := hr n k hg
+        simp only [bind_ok]
+        by_cases hx : k = x.toNat
+        · have : UInt64.ofNat k = x := by rw [hx]; simp
+          simp [hx, resToLoop]
+        · have hne : ¬ UInt64.ofNat k = x := by
+            intro hc; apply hx; rw [← hc]; simp [UInt64.toNat_ofNat', Nat.mod_eq_of_lt hk]
+          simp only [hx, if_false, beq_iff_eq, hne]
+          rw [orInt_step n (by omega)]
+          by_cases hlt : k < x.toNat
+          · have hlt' : UInt64.ofNat k < x := by
+              rw [UInt64.lt_iff_toNat_lt]; simp [UInt64.toNat_ofNat', Nat.mod_eq_of_lt hk]; exact hlt
+            simp only [hlt, hlt', if_true, decide_true]
+            have hw : Go.wrap64 (((2 * n + 1 : Nat) : Int) + 1) = ((2 * n + 2 : Nat) : Int) := by
+              rw [Go.wrap64_id] <;> omega
+            rw [hw]
+            exact ih (2*n+2) (by omega) (by omega)
+          · have hlt' : ¬ UInt64.ofNat k < x := by
+              rw [UInt64.lt_iff_toNat_lt]; simp [UInt64.toNat_ofNat', Nat.mod_eq_of_lt hk]; omega
+            simp only [hlt, hlt', if_false, decide_false, Bool.false_eq_true]
+            exact ih (2*n+1) (by omega) (by omega)
+    · have hn' : ¬ (n : Int) < (max : Int) := by omega
+      simp only [hn, hn', if_false, decide_false, Bool.not_false, if_true, resToLoop]
+      exact ⟨_, rfl⟩
+
+/-- **tie** (deprecated/bucketteer, the version-1 format): `searchEytzinger(0, max, x, getter)` as translated from the source answers exactly what the
+    model's `searchB` answers — for every getter (failing reads included), every bucket size below 2^62 and every wanted
+    hash — and `max + 1` units of fuel suffice. -/
+theorem gen_bk1SearchEytzinger_eq_model (get : Nat → Option Nat) (x : UInt64) (max : Nat) (hmax : max < 2^62) (ioErr : Err)
+    (getter : Int → M UInt64)
+    (hget : ∀ i : Nat, i < max → getter (i : Int) = match get i with | none => .error ioErr | some k => .ok (UInt64.ofNat k))
+    (hr : ∀ i k, get i = some k → k < 2^64) :
+    bk1SearchEytzinger (max + 1) 0 (max : Int) x getter = resToM x ioErr (BK.searchB get x.toNat max (max + 1) 0) := by
+  have h := bk1_loop_eq get x max hmax ioErr getter (max + 1) hget hr (max + 1) 0 (by omega) (by omega)
+  unfold bk1SearchEytzinger
+  simp only [Int.natCast_zero] at h
+  cases hs : BK.searchB get x.toNat max (max + 1) 0 with
+  | yes => rw [hs] at h; simp only [resToLoop] at h; simp [h, resToM]
+  | no =>
+    rw [hs] at h; simp only [resToLoop] at h
+    obtain ⟨i, h⟩ := h
+    simp [h, resToM, throw, throwThe, MonadExceptOf.throw]
+  | err => rw [hs] at h; simp only [resToLoop] at h; simp [h, resToM]
+
 /-! ### prefixToUint16 / uint16ToPrefix (read.go) = `BK.prefixOf` -/
 
 /-- **tie**: the bucket number of a signature is `sig[0] + 256·sig[1]` -/
